@@ -245,6 +245,37 @@ def u_cbc_neg(ctx, u):
         frag = iv + RM.cbc_encrypt(E, iv, body)
         _cbc_must_fail(ctx, keys, seq, bytes([rtype]) + version + len(frag).to_bytes(2, 'big') + frag, name)
         ctx.nontrivial('cbc-pad', rec, name)
+    # records that are well-formed except for ONE property, built with the reference cipher under the real keys:
+    # a single wrong MAC byte (each of the 32), and inconsistent padding bytes under a correct MAC
+    import hmac as _hm
+    hdr = bytes([rtype]) + version + n.to_bytes(2, 'big')
+    mac_ok = _hm.new(keys.mac_key, seq + hdr + payload, 'sm3').digest()
+
+    def seal(body):
+        iv = rng.randbytes(16)
+        frag = iv + RM.cbc_encrypt(E, iv, body)
+        return bytes([rtype]) + version + len(frag).to_bytes(2, 'big') + frag
+
+    def padded(body, pad):
+        return body + bytes([pad]) * (pad + 1)
+    base_pad = (16 - (n + 32 + 1) % 16) % 16
+    for i in range(32):
+        mac_bad = bytearray(mac_ok)
+        mac_bad[i] ^= 1 << rng.randrange(8)
+        _cbc_must_fail(ctx, keys, seq, seal(padded(payload + bytes(mac_bad), base_pad)), 'single-wrong-mac-byte', mac_byte=i)
+        ctx.nontrivial('cbc-macbyte', rec, i)
+    for extra_blocks in (1, 2):
+        pad = base_pad + 16 * extra_blocks
+        good = padded(payload + mac_ok, pad)
+        r_ok, _, _ = cbc_record_decrypt(ctx, keys, seq, seal(good))
+        ctx.check(r_ok == 1, 'cbc:rejected-valid:long-padding', pad=pad)
+        for pos in sorted(set([0, 1, pad // 2, pad - 1])):
+            if pos >= pad:
+                continue
+            bad = bytearray(good)
+            bad[len(payload) + 32 + pos] ^= 0x20          # one padding byte differs, the length byte stays
+            _cbc_must_fail(ctx, keys, seq, seal(bytes(bad)), 'inconsistent-padding-under-valid-mac', pad=pad, pos=pos)
+            ctx.nontrivial('cbc-padbyte', rec, pad, pos)
     ctx.sample({'kind': 'cbc-neg', 'payload_len': n, 'record_len': len(rec), 'seq': seqv})
     for k in (keys, k2, k3):
         k.free()
